@@ -164,8 +164,32 @@ def _set_fields(prefix, f):
     return [(prefix + "_reloc", "amc::is_trivially_relocatable<%s >::value" % f), (prefix + "_sw", "C17_NX_SW(%s)" % f)]
 
 
-_CMP_TYPEDEFS = ("typedef amc::allocator<E> A; typedef std::less<E> C0; typedef c17::CmpPlain<E> C1; "
-                 "typedef c17::CmpDeclared<E> C2;")
+# Comparators: tag -> (C++ type, empty, trivially copyable, declares).  The last three columns are how each one is
+# DESIGNED (checked against what the compiler prints); the oracle derives "relocatable" from them by the property's
+# rule alone: the declaration if there is one, else trivially copyable.  Emptiness is an axis of its own because a
+# comparator is a (private, possibly empty) base of FlatSet: an empty comparator that is not relocatable must block
+# the set's trait exactly like a stateful one.
+COMPARATORS = [
+    ("c0", "std::less<E>", True, True, None),              # empty, trivially copyable         -> relocatable
+    ("c1", "c17::CmpPlain<E>", False, False, None),        # stateful, user-provided copy      -> not relocatable
+    ("c2", "c17::CmpDeclared<E>", False, False, True),     # stateful, user copy, declares     -> relocatable
+    ("c3", "c17::CmpEmptyOptOut<E>", True, True, False),   # empty, trivially copyable, opts out -> not relocatable
+    ("c4", "c17::CmpEmptyPlain<E>", True, False, None),    # empty, user-provided copy         -> not relocatable
+]
+CMP_TAGS = [c[0] for c in COMPARATORS]
+_CMP_TYPEDEFS = "typedef amc::allocator<E> A; " + " ".join(
+    "typedef %s C%s;" % (c[1], c[0][1]) for c in COMPARATORS)
+
+
+def _flatsets(tprefix, alloc, vec):
+    """typedefs of FlatSet<E, Ci, alloc, vec> for every comparator, named <tprefix>i"""
+    return " " + " ".join("typedef amc::FlatSet<E, C%s, %s, %s> %s%s;" % (c[1], alloc, vec, tprefix, c[1])
+                          for c in CMP_TAGS)
+
+
+def _flatset_fields(fprefix, tprefix):
+    return [f for c in CMP_TAGS for f in _set_fields(fprefix + c[1], tprefix + c[1])]
+
 
 ROWS = {
     # per TU: what a pointer is
@@ -175,9 +199,7 @@ ROWS = {
     "K": dict(tparams="class E", typedefs="", fields=[
         ("sz", "sizeof(E)"), ("al", "alignof(E)"), ("tc", "std::is_trivially_copyable<E>::value")]),
     # per element type: its own traits, amc::vector<E>, FlatSet<E, cmp> over amc::vector
-    "E": dict(tparams="class E", typedefs=_CMP_TYPEDEFS + " typedef amc::vector<E> V;"
-              " typedef amc::FlatSet<E, C0, A, V> F0; typedef amc::FlatSet<E, C1, A, V> F1;"
-              " typedef amc::FlatSet<E, C2, A, V> F2;",
+    "E": dict(tparams="class E", typedefs=_CMP_TYPEDEFS + " typedef amc::vector<E> V;" + _flatsets("F", "A", "V"),
               fields=[("sz", "sizeof(E)"), ("al", "alignof(E)"), ("tc", "std::is_trivially_copyable<E>::value"),
                       ("td", "std::is_trivially_destructible<E>::value"),
                       ("nmc", "std::is_nothrow_move_constructible<E>::value"),
@@ -186,11 +208,12 @@ ROWS = {
                       ("nsw_amc", "amc::is_nothrow_swappable<E>::value"),   # the library's (own code before C++17)
                       ("reloc", "amc::is_trivially_relocatable<E>::value")]
               + _vec_fields("v", "V")
-              + [(c + "_" + k, e % t) for c, t in (("c0", "C0"), ("c1", "C1"), ("c2", "C2"))
-                 for k, e in (("tc", "std::is_trivially_copyable<%s >::value"),
+              + [(c + "_" + k, e % ("C" + c[1])) for c in CMP_TAGS
+                 for k, e in (("empty", "std::is_empty<%s >::value"),
+                              ("tc", "std::is_trivially_copyable<%s >::value"),
                               ("nsw", "c17::nothrow_swappable<%s >::value"),
                               ("reloc", "amc::is_trivially_relocatable<%s >::value"))]
-              + _set_fields("f0", "F0") + _set_fields("f1", "F1") + _set_fields("f2", "F2")),
+              + _flatset_fields("f", "F")),
     # per element type, C++17 on: the std::set that backs the default SmallSet
     "Q": dict(tparams="class E", cxx17=True, typedefs=_CMP_TYPEDEFS + " typedef std::set<E, C0, A> S0;",
               fields=[("set_tc", "std::is_trivially_copyable<S0>::value"),
@@ -201,29 +224,23 @@ ROWS = {
     # per element type x N: SmallVector<E,N>, FixedCapacityVector<E,N>, SmallestSizeType<N>, FlatSets over both
     "N": dict(tparams="class E, unsigned long long N", typedefs=_CMP_TYPEDEFS +
               " typedef amc::SmallVector<E, N> SV; typedef amc::FixedCapacityVector<E, N> FV;"
-              " typedef amc::vec::EmptyAlloc EA;"
-              " typedef amc::FlatSet<E, C0, A, SV> FS0; typedef amc::FlatSet<E, C1, A, SV> FS1;"
-              " typedef amc::FlatSet<E, C2, A, SV> FS2; typedef amc::FlatSet<E, C0, EA, FV> FF0;"
-              " typedef amc::FlatSet<E, C1, EA, FV> FF1; typedef amc::FlatSet<E, C2, EA, FV> FF2;",
+              " typedef amc::vec::EmptyAlloc EA;" + _flatsets("FS", "A", "SV") + _flatsets("FF", "EA", "FV"),
               fields=_vec_fields("sv", "SV") + _vec_fields("fv", "FV", with_td=True, with_st=True)
               + [("sst", "c17::StCode<typename amc::vec::SmallestSizeType<N>::type>::value")]
-              + _set_fields("fs0", "FS0") + _set_fields("fs1", "FS1") + _set_fields("fs2", "FS2")
-              + _set_fields("ff0", "FF0") + _set_fields("ff1", "FF1") + _set_fields("ff2", "FF2")),
+              + _flatset_fields("fs", "FS") + _flatset_fields("ff", "FF")),
     # per element type x N x non-default size_type: SmallVector<E, N, Alloc, S>
     "T": dict(tparams="class E, unsigned long long N, class S",
               typedefs="typedef amc::SmallVector<E, N, amc::allocator<E>, S> SV;", fields=_vec_fields("sv", "SV")),
     # per element type x N <= 64, C++17 on: SmallSet over std::set and over FlatSet, and its inline vector
     "M": dict(tparams="class E, unsigned long long N", cxx17=True, typedefs=_CMP_TYPEDEFS +
               " typedef amc::FixedCapacityVector<E, N, amc::vec::UncheckedGrowingPolicy> UV;"
-              " typedef amc::SmallSet<E, N, C0, A> MS; typedef amc::SmallSet<E, N, C0, A, amc::FlatSet<E, C0, A> > MF0;"
-              " typedef amc::SmallSet<E, N, C1, A, amc::FlatSet<E, C1, A> > MF1;"
-              " typedef amc::SmallSet<E, N, C2, A, amc::FlatSet<E, C2, A> > MF2;",
+              " typedef amc::SmallSet<E, N, C0, A> MS; " + " ".join(
+                  "typedef amc::SmallSet<E, N, C%s, A, amc::FlatSet<E, C%s, A> > MF%s;" % (c[1], c[1], c[1])
+                  for c in CMP_TAGS),
               fields=[("uv_td", "std::is_trivially_destructible<UV>::value"),
                       ("uv_reloc", "amc::is_trivially_relocatable<UV>::value"),
-                      ("ms_reloc", "amc::is_trivially_relocatable<MS>::value"),
-                      ("mf0_reloc", "amc::is_trivially_relocatable<MF0>::value"),
-                      ("mf1_reloc", "amc::is_trivially_relocatable<MF1>::value"),
-                      ("mf2_reloc", "amc::is_trivially_relocatable<MF2>::value")]),
+                      ("ms_reloc", "amc::is_trivially_relocatable<MS>::value")]
+              + [("mf%s_reloc" % c[1], "amc::is_trivially_relocatable<MF%s>::value" % c[1]) for c in CMP_TAGS]),
     # std::pair<A,B> and std::pair<std::pair<A,B>,C>
     "P": dict(tparams="class A, class B", typedefs="",
               fields=[("reloc", "amc::is_trivially_relocatable<std::pair<A, B> >::value")]),
@@ -364,8 +381,10 @@ def exp_size_bound(n, esz, eal, vec_sz, ptr_sz, ptr_al):
     return False, vec_sz + n * esz + max(eal, ptr_al)
 
 
-# comparator -> (expected trivially copyable, declares)
-CMPS = {"c0": (True, None), "c1": (False, None), "c2": (False, True)}
+def exp_reloc_cmp(tc, decl):
+    """same rule as for any type: the declaration if there is one, else trivially copyable (emptiness plays no role)"""
+    return decl if decl is not None else bool(tc)
+
 
 # "Trivial default" of every fact family: the expected value on the simplest instance of the matrix (1-byte trivial
 # element, std::less, N = 0, default size_type).  A cell is counted as non-trivial when its expected value differs.
@@ -423,7 +442,7 @@ class Judge:
 
     def flatset_cells(self, prefix, what, el, nclass, where, vals, idx, t, vec_reloc, vec_sw):
         """FlatSet::trivially_relocatable == Compare && VecType;  swap noexcept == vector swap && Compare swappable."""
-        for c in ("c0", "c1", "c2"):
+        for c in CMP_TAGS:
             p = "%s%s" % (prefix, c[1])
             w = where + "+" + c
             self.cell("reloc", "%s(%s).reloc" % (what, c), el, nclass, w, bool(t[c + "_reloc_exp"] and vec_reloc),
@@ -478,17 +497,17 @@ class Judge:
                     cat["mc"], cat["ma"], not cat["dtor"], bool(cat.get("adl")) or (cat["mc"] and cat["ma"])):
                 raise RuntimeError("generator: %s does not have the moves/dtor/swap its category says: %r" % (a, t))
         t["reloc_exp"] = exp_reloc_elem(el, t["tc"])
-        for cn, (ctc, cdecl) in CMPS.items():
-            if bool(v[idx[cn + "_tc"]]) != ctc:
-                raise RuntimeError("generator: comparator %s trivially-copyable is not as designed" % cn)
+        for cn, _, cempty, ctc, cdecl in COMPARATORS:
+            if (bool(v[idx[cn + "_empty"]]), bool(v[idx[cn + "_tc"]])) != (cempty, ctc):
+                raise RuntimeError("generator: comparator %s empty/trivially-copyable is not as designed" % cn)
             t[cn + "_nsw"] = bool(v[idx[cn + "_nsw"]])
-            t[cn + "_reloc_exp"] = cdecl if cdecl is not None else ctc
+            t[cn + "_reloc_exp"] = exp_reloc_cmp(v[idx[cn + "_tc"]], cdecl)
         self.tr[a] = t
         self.vsz[(a, "u32")] = v[idx["v_sz"]]
         self.cell("reloc", "elem.reloc", el, "-", a, t["reloc_exp"], bool(v[idx["reloc"]]))
         # the trait the documented swap condition is written with (the library's own code before C++17)
         self.cell("nx", "elem.is_nothrow_swappable", el, "-", a, t["nsw"], bool(v[idx["nsw_amc"]]))
-        for cn in CMPS:
+        for cn in CMP_TAGS:
             self.cell("reloc", "cmp(%s).reloc" % cn, el, "-", a + "+" + cn, t[cn + "_reloc_exp"],
                       bool(v[idx[cn + "_reloc"]]))
         w = "amc::vector<%s>" % a
@@ -548,7 +567,7 @@ class Judge:
         self.cell("reloc", "fixedcapacityvector.reloc", el, nc, w, r, bool(v[idx["uv_reloc"]]))
         # SmallSet == inline vector && backing set; std::set is never relocatable, FlatSet<E,cmp> == cmp && vector
         self.cell("setreloc", "smallset/stdset.reloc", el, nc, "SmallSet<%s,%d>" % (a, n), False, bool(v[idx["ms_reloc"]]))
-        for cn in ("c0", "c1", "c2"):
+        for cn in CMP_TAGS:
             self.cell("reloc", "smallset/flatset(%s).reloc" % cn, el, nc, "SmallSet<%s,%d,FlatSet+%s>" % (a, n, cn),
                       bool(r and t[cn + "_reloc_exp"]), bool(v[idx["mf%s_reloc" % cn[1]]]))
 
